@@ -460,6 +460,12 @@ func cmdC16Perm(seed uint64, n int, dir string) {
 			hoist = append(hoist, fmt.Sprintf("func f%d(a int) int {\n\t%s\n}\n", i, body))
 		}
 		hoist = append(hoist, "func helper(a int) int {\n\treturn a*3 - 1\n}\n")
+		// names that are BOTH package-level identifiers and parameters / locals of other functions: which
+		// declaration is compiled first must not decide what the inner name refers to
+		hoist = append(hoist, "func readG() int {\n\treturn g0 + k0 + helper(1)\n}\n")
+		hoist = append(hoist, fmt.Sprintf("func shadowP(g0 int, k0 int) int {\n\thelper := g0 * 2\n\treturn helper + k0 + %d\n}\n", r.intn(9)))
+		hoist = append(hoist, "func shadowL(a int) int {\n\tg1 := a + 100\n\tf0 := g1 * 2\n\treturn f0 + g1\n}\n")
+		hoist = append(hoist, fmt.Sprintf("func (t *T0) shadowM(g0 int) int {\n\treturn t.v + g0 + %d\n}\n", r.intn(9)))
 		// non-hoistable sequence (kept in order)
 		var fixed []string
 		fixed = append(fixed, fmt.Sprintf("const k0 = %d\n", r.intn(9)+1), "const k1 = k0 + 2\n")
@@ -479,6 +485,7 @@ func cmdC16Perm(seed uint64, n int, dir string) {
 			// "S" lines: goatlang renders a struct reference with field names, Go without: compared between layouts only
 			mainFn += fmt.Sprintf("\tx%d := &T%d{%s}\n\tfmt.Println(x%d.m0(2))\n\tfmt.Println(\"S\", x%d)\n", i, i, init, i, i)
 		}
+		mainFn += "\tfmt.Println(readG(), shadowP(3, 4), shadowL(5), x0.shadowM(6))\n"
 		mainFn += "\tfmt.Println(g0, g1, k1)\n}\n"
 		hoist = append(hoist, mainFn)
 		variant := func(perm bool, nfiles int) fstest.MapFS {
